@@ -49,6 +49,19 @@ func c18DirectedConfig(name string) *c18Config {
 		c := c18Cfg("eng", []string{"eng", "spa"}, "", stSame)
 		c.BaseSection = true
 		return c
+	// the allowed languages change while the session waits
+	case "environment-refresh-drops-contact-language":
+		c := c18Cfg("eng", []string{"spa", "fra"}, "spa", stSame)
+		c.Phase2, c.Allowed2 = true, []string{"fra"}
+		return c
+	case "environment-refresh-allows-contact-language":
+		c := c18Cfg("eng", []string{"fra"}, "spa", stSame)
+		c.Phase2, c.Allowed2 = true, []string{"fra", "spa"}
+		return c
+	case "environment-refresh-changes-default":
+		c := c18Cfg("eng", []string{"fra", "kin"}, "", stSame)
+		c.Phase2, c.Allowed2 = true, []string{"kin", "fra"}
+		return c
 	// say_msg: text and recording translated in different languages
 	case "voice-text-and-recording-in-different-languages":
 		return c18Cfg("eng", []string{"fra", "spa"}, "spa", stSame).voice(map[string]int{"spa": stSame, "fra": stSame}, map[string]int{"fra": stSame})
